@@ -201,12 +201,17 @@ def rand_string(rng, n):
     return bs.hex() if bs else "-"
 
 
+# every string is also duplicated with these bounds (n + 1 wraps at SIZE_MAX; 32/63-bit truncation boundaries)
+STRNDUP_BIG_N = [M64, M64 - 1, 1 << 63, (1 << 63) - 1, 1 << 32, (1 << 32) - 1, (1 << 32) + 1]
+
+
 def str_case(rng, lengths):
     ops, L = ["config"], Lab()
     for ln in lengths:
         h = rand_string(rng, ln)
         ops.append("gstrdup %s %s" % (h, L.new("g")))
-        for n in {0, 1, max(0, ln - 1), ln, ln + 1, rng.randrange(0, 310), rng.choice([M64, M64 - 1, 1 << 63, 1 << 32])}:
+        ns = {0, 1, max(0, ln - 1), ln, ln + 1, rng.randrange(0, 310)} | set(STRNDUP_BIG_N)
+        for n in sorted(ns):
             ops.append("gstrndup %s %d %s" % (h, n, L.new("g")))
     ops.append("finish")
     return ops
@@ -257,7 +262,7 @@ def workload(rng, n, nothrow_ok=True):
             if rng.random() < 0.5:
                 ops.append("gstrdup %s %s" % (h, g))
             else:
-                ops.append("gstrndup %s %d %s" % (h, rng.randrange(0, 45), g))
+                ops.append("gstrndup %s %d %s" % (h, rng.randrange(0, 45) if rng.random() < 0.7 else rng.choice(STRNDUP_BIG_N), g))
             glob.append(g)
         elif x < 0.88:
             nl = L.new("n")
@@ -284,6 +289,49 @@ def fault_case(w, points):
     return ["config"] + ["fail %s %d" % p for p in points] + w + ["finish"]
 
 
+def rzero_case(rng, faults=True):
+    """`realloc(p, 0)` and `realloc(NULL, n)` through cpputest_realloc (mem_leak_realloc) and through the private detector
+    in every family, with and without a failing platform realloc"""
+    ops, L = ["config"], Lab()
+    sizes = [0, 1, 2, 7, 8, 9, 24, 100, 300]
+    for _ in range(rng.randrange(2, 6)):
+        a = L.new("g")
+        ops.append("gmalloc %d %s %d" % (rng.choice(sizes), a, rng.randrange(200)))
+        for _ in range(rng.randrange(1, 4)):
+            if faults and rng.random() < 0.25:
+                ops.append("fail realloc 1")
+            b = L.new("g")
+            ops.append("grealloc %s %d %s %d" % (a, 0 if rng.random() < 0.6 else rng.choice(sizes), b, rng.randrange(200)))
+            ops.append("gpeek %s" % a)
+            ops.append("gpeek %s" % b)
+            # on success the block is b, on failure still a: both orders of release are tried by the harness (dead labels are skipped)
+            a2 = L.new("g")
+            ops.append("grealloc %s %d %s %d" % (b, rng.choice(sizes), a2, rng.randrange(200)))
+            ops.append("gfree %s" % a2)
+            ops.append("gfree %s" % b)
+        ops.append("gfree %s" % a)
+        if faults and rng.random() < 0.25:
+            ops.append("fail realloc 1")
+        n = L.new("g")
+        ops.append("grealloc null %d %s %d" % (0 if rng.random() < 0.5 else rng.choice(sizes), n, rng.randrange(200)))
+        ops.append("gpeek %s" % n)
+        if rng.random() < 0.7:
+            ops.append("gfree %s" % n)
+        f = rng.choice(FAMS)
+        p1 = L.new()
+        ops.append("alloc %s %d %s %d" % (f, rng.choice(sizes), p1, rng.randrange(200)))
+        if faults and rng.random() < 0.25:
+            ops.append("fail realloc 1")
+        p2 = L.new()
+        ops.append("realloc %s %s 0 %s %d" % (f, p1, p2, rng.randrange(200)))
+        ops.append("peek %s" % p1)
+        p3 = L.new()
+        ops.append("realloc %s null %d %s %d" % (f, 0 if rng.random() < 0.5 else rng.choice(sizes), p3, rng.randrange(200)))
+        ops.append("free %s %s" % (f, p2))
+    ops.append("finish")
+    return ops
+
+
 def oom_case(rng):
     ops, L = ["config"], Lab()
     g0 = L.new("g")
@@ -303,7 +351,8 @@ def oom_case(rng):
                 elif x == 2:
                     ops.append("gstrdup %s %s" % (rand_string(rng, rng.randrange(0, 20)), g))
                 else:
-                    ops.append("gstrndup %s %d %s" % (rand_string(rng, rng.randrange(0, 20)), rng.randrange(0, 25), g))
+                    ops.append("gstrndup %s %d %s" % (rand_string(rng, rng.randrange(0, 20)),
+                                                        rng.randrange(0, 25) if rng.random() < 0.7 else rng.choice(STRNDUP_BIG_N), g))
             ops.append("gpeek %s" % g0)
             ops.append("goom off")
             ops.append("gmalloc 7 %s 2" % L.new("g"))
@@ -439,6 +488,9 @@ def generate(rng, tier):
     # 6. out-of-memory modes
     for i in range(400 if thorough else 30):
         out.append(("oom", oom_case(rng)))
+    # 6b. realloc(p, 0) and realloc(NULL, n)
+    for i in range(300 if thorough else 25):
+        out.append(("rzero", rzero_case(rng)))
     # 7. malformed stream
     for i in range(1000 if thorough else 60):
         out.append(("malformed", malformed_case(rng)))
@@ -561,6 +613,8 @@ def extra(ctx, exe):
             cases.append(("nc-fault:%d" % len(cases), fault_case(w, [p])))
     for i in range(60 if thorough else 5):
         cases.append(("nc-oom:%d" % i, oom_case(rng)))
+    for i in range(100 if thorough else 10):
+        cases.append(("nc-rzero:%d" % i, rzero_case(rng)))
     for i, ch in enumerate(chunks(calloc_pairs(rng), 20)):
         cases.append(("nc-calloc:%d" % i, calloc_case(rng, ch)))
     results, _, err = flow.run_cases(ctx.mod, exe2, cases)
@@ -593,19 +647,25 @@ def extra(ctx, exe):
                       flow.replay_text(ctx.mod, r, hdr), name="nocorrupt", no_input=not impl)
 
 
-LEVEL_TEXT = ("Machine-checked Lean 4 theorems, for all 64-bit sizes and every node size that is a multiple of 8, about the size "
-              "expressions REGENERATED from the current source: the overflow guard rejects exactly the sizes whose bookkeeping-extended "
-              "size does not fit size_t; for every accepted size the user bytes, the guard bytes and the (inline) record are pairwise "
-              "disjoint, inside the requested underlying block, the record 8-aligned, and at least `size` bytes are usable; the calloc test "
-              "is exact (true iff num*size >= 2^64) and a successful calloc is zero-filled; strdup/strndup copy exactly the C string / its "
-              "n-prefix plus terminator without reading past the source; realloc keeps the first min(old,new) user bytes under the "
-              "platform realloc contract; when the platform answers NULL (or the size is rejected) the result is NULL / bad_alloc / the "
-              "default allocator's test failure and the tracked set, including the re-tracked old block of a failed realloc, is unchanged; "
-              "throwing operator new variants never return NULL, nothrow ones never throw bad_alloc. No operation of the byte-level model "
-              "writes outside a block (for the unrepaired tree the same model ends in `ub`). The model is tied to the code on every run by "
-              "a differential harness under ASan/UBSan (private detector with recording allocators and the global API with failing platform "
-              "seams, default build and -DCPPUTEST_DISABLE_MEM_CORRUPTION_CHECK) and the implementation's own observations are judged by an "
-              "independent specification oracle.")
+LEVEL_TEXT = ("Machine-checked Lean 4 theorems, for all 64-bit sizes, both build configurations and every node size that is a multiple "
+              "of 8, about the size expressions REGENERATED from the current source (aligned size, size with corruption info, node offset, "
+              "request sizes, both overflow guards, the calloc test, the strdup/strndup length computations): the overflow guard rejects "
+              "exactly the sizes whose bookkeeping-extended size does not fit size_t; for every accepted size the user bytes, guard bytes and "
+              "inline record are pairwise disjoint, inside the requested block, the record 8-aligned, the platform is never asked for 0 "
+              "bytes; the calloc test is exact and a successful calloc zero-filled; strdup/strndup copy exactly the C string / its n-prefix "
+              "for every bound n up to SIZE_MAX. A WHOLE-HISTORY INVARIANT is proved for the byte-level model: every state reachable from "
+              "the empty detector through new/new[]/malloc/calloc/strdup/strndup/realloc/free/delete/delete[] and client stores into user "
+              "bytes, of any length, under the platform contract, has pairwise different tracked blocks, each live, exactly as long as "
+              "requested, guard bytes intact, the record inline behind the guard or in a live block of its own; and no operation of such a "
+              "history writes outside a block or dereferences NULL (outside the two listed findings, excluded by name). From the invariant "
+              "alone: realloc of any tracked block keeps the first min(old,new) user bytes and swaps the records; a failing platform "
+              "realloc re-tracks the old block untouched; realloc(p,0) and realloc(NULL,n) behave as allocations; free/delete/delete[] "
+              "release exactly the block, with one platform free carrying the caller's own pointer (node block first in the separate "
+              "layout); the pointer handed to the caller is the platform's block at offset 0 (so it has the platform's alignment); failed "
+              "requests leave the tracked set unchanged; throwing operator new never returns NULL. The model is tied to the code on every "
+              "run by a differential harness under ASan/UBSan (private detector with recording allocators and the global API with failing "
+              "platform seams, default build and -DCPPUTEST_DISABLE_MEM_CORRUPTION_CHECK); the implementation's own observations are "
+              "judged by an independent specification oracle.")
 LEVEL_NOTE = ("Trusted: Lean kernel; the hand-written model (validated against the code by this run's correspondence); the expression "
               "translator; the platform allocator contract (fresh, disjoint, 16-aligned blocks; realloc keeps the prefix). Not carried by "
               "theorems: that distinct underlying blocks do not overlap and that the compiled code touches only what the model touches "
